@@ -294,7 +294,9 @@ def check(fb, ctx):
         rng = [n for n in find_all(h["body"], lambda n: n.get("k") == "if") if hirq.err_variant(n["then"]) and find_all(n["cond"], lambda z: z.get("k") == "path" and (z["res"].get("path") or "").endswith("MIN_SCHEMA_VERSION")) and find_all(n["cond"], lambda z: z.get("k") == "path" and (z["res"].get("path") or "").endswith("MAX_SCHEMA_VERSION"))]
         ctx.check(len(rng) == 1 and not hirq.inside_loop(h, rng[0]), "GATE", f"{short}: declared version outside MIN..=MAX is refused", f"GATE|{short}|range", "range test on the declared version not found", f"{b['file']}:{b['line']}")
         kind_gate_rule(fb, ctx, short, b)
-        tp = [n for n in find_all(h["body"], lambda n: n.get("k") == "if") if hirq.err_variant(n["then"]) and find_all(n["cond"], lambda z: z.get("k") == "path" and (z["res"].get("path") or "").endswith("DATALOG_3_2")) and (mcalls(n["cond"], r"Option::<T>::is_some$"))]
+        # `external_key.is_some()` may be computed into a variable first (e.g. passed to a helper as `third_party: bool`)
+        some_ids = hirq.let_ids(h["body"], lambda i: bool(mcalls(i, r"Option::<T>::is_some$")))
+        tp = [n for n in find_all(h["body"], lambda n: n.get("k") == "if") if hirq.err_variant(n["then"]) and find_all(n["cond"], lambda z: z.get("k") == "path" and (z["res"].get("path") or "").endswith("DATALOG_3_2")) and (mcalls(n["cond"], r"Option::<T>::is_some$") or find_all(n["cond"], lambda z: hirq.is_lid(z, some_ids)))]
         if short == "proto_block_to_token_block":  # snapshot blocks were already admitted by this gate when the token was loaded
             ctx.check(len(tp) == 1 and not hirq.inside_loop(h, tp[0]), "THIRDPARTY", f"{short}: a block with an external key below 3.2 is refused", f"THIRDPARTY|{short}", "`if version < DATALOG_3_2 && external_key.is_some() { Err }` not found as an unconditional statement of the loader (inside a loop over the block's content it is skipped when that content is empty)", f"{b['file']}:{b['line']}")
     cb2 = fb.body("biscuit_auth::token::third_party::ThirdPartyRequest::create_block")
